@@ -178,6 +178,7 @@ class Path:
         self.labels = []  # human-readable decision labels
         self.vars = {}  # name -> z3 const (for witness extraction)
         self.assumptions = []
+        self.lazy = []
 
     # -------------------------------------------------------------- fresh symbols
     def fresh_bv(self, name: str, width: int):
@@ -210,8 +211,41 @@ class Path:
         self.engine.stats.decisions += 1
         return v
 
+    def lazy_constrain(self, fact):
+        """a valid fact (arithmetic lemma instance): only added to the queries when a model violates it"""
+        self.lazy.append(fact)
+
+    def solve_lazy(self, extra, want_model=False):
+        """solve pc /\ extra, activating lemma instances on demand (CEGAR over the lazy facts)"""
+        while True:
+            if self.lazy:
+                try:
+                    r, m = self.engine.solve(self.pc + list(extra), want_model=True, timeout_ms=4000)
+                except Inconclusive:
+                    # the query may need the lemma instances to be decided at all: activate every one of them
+                    self.engine.stats.queries["unknown"] -= 1
+                    self.pc.extend(self.lazy)
+                    self.lazy = []
+                    continue
+            else:
+                r, m = self.engine.solve(self.pc + list(extra), want_model=want_model)
+            if r != "sat" or not self.lazy:
+                return r, m
+            hit = []
+            rest = []
+            for f in self.lazy:
+                if z3.is_false(m.eval(f, model_completion=True)):
+                    hit.append(f)
+                else:
+                    rest.append(f)
+            if not hit:
+                return r, m
+            self.lazy = rest
+            self.pc.extend(hit)
+            self.engine.stats.lazy_activated = getattr(self.engine.stats, "lazy_activated", 0) + len(hit)
+
     def feasible(self, extra) -> bool:
-        r, _ = self.engine.solve(self.pc + list(extra))
+        r, _ = self.solve_lazy(list(extra))
         return r == "sat"
 
     def branch(self, cond, label="if") -> bool:
@@ -251,7 +285,7 @@ class Path:
         else:
             vals = []
             while True:
-                r, m = self.engine.solve(self.pc + [term != z3.BitVecVal(x, term.size()) for x in vals], want_model=True)
+                r, m = self.solve_lazy([term != z3.BitVecVal(x, term.size()) for x in vals], want_model=True)
                 if r != "sat":
                     break
                 vals.append(m.eval(term, model_completion=True).as_long())
@@ -293,7 +327,7 @@ class Path:
     def refute(self, bad, want_model=True):
         """Ask for a model of pc /\\ bad.  Returns model or None (unsat)."""
         self.engine.stats.checks += 1
-        r, m = self.engine.solve(self.pc + [bad], want_model=want_model)
+        r, m = self.solve_lazy([bad], want_model=want_model)
         if r == "unsat":
             self.engine.stats.checks_discharged += 1
             return None
@@ -301,14 +335,14 @@ class Path:
 
     def witness(self):
         """A model of the path condition (path is feasible by invariant)."""
-        r, m = self.engine.solve(self.pc, want_model=True)
+        r, m = self.solve_lazy([], want_model=True)
         if r != "sat":
             raise HarnessError("path condition unsatisfiable at end of a feasible path")
         return m
 
     def twin(self, what="reach"):
         """Reachability twin: `assert False` here must be violated, i.e. pc is sat."""
-        r, _ = self.engine.solve(self.pc)
+        r, _ = self.solve_lazy([])
         if r != "sat":
             raise HarnessError("reachability twin failed: %s" % what)
         self.engine.stats.twins += 1
